@@ -244,6 +244,8 @@ PROPS = {
         "rule": "leaper/pawn/ray tables for all 64 squares, between/line for all 4096 pairs, pawn pushes for all (square, colour) x 4 occupancy classes x random rest; sliders: every subset of the relevant mask x 3 fillings of the irrelevant bits (quick: all bishop squares, 16 rook squares; thorough: all) plus random occupancies; magic, PEXT and overflow-checked builds",
         "assumptions": VALUE_ASSUME,
         "jobs": [
+            {"type": "model", "name": "model-geometry", "spec": "MC_Geometry", "exhaustive": True,
+             "params": {"quick": {"workers": 12, "xmx": "6g", "geom_mc": {"rook": 16}}, "thorough": {"workers": 16, "xmx": "8g", "geom_mc": {"rook": 64}}}},
             value_job("geom-magic", "geom", ["C05"], {"rook-squares": 12, "random-occ": 3000}, {"rook-squares": 64, "random-occ": 200000}, sample_kinds=["sl", "leap", "pq"]),
             value_job("geom-pext", "geom", ["C05"], {"rook-squares": 6, "bishop-squares": 32, "random-occ": 2000}, {"rook-squares": 64, "random-occ": 200000}, variant="pext", seed_offset=17, sample_kinds=["sl"]),
             value_job("geom-overflow-checks", "geom", ["C05"], {"rook-squares": 2, "bishop-squares": 8, "random-occ": 500}, {"rook-squares": 8, "bishop-squares": 64, "random-occ": 20000}, variant="dev", seed_offset=23, sample_kinds=["sl"]),
